@@ -659,3 +659,39 @@ func c14Repeated(res *Result) {
 		}
 	}
 }
+
+// c02UnderSwitch: inside an `autoescape on` region context text is escaped whatever the package
+// default says - also when it travels through a macro called, defined or assigned in the region.
+// (An included template is an execution of its own: it starts in the package default mode, under
+// either default - the region of the includer does not reach into it; not part of this oracle.)
+func c02UnderSwitch(res *Result) {
+	defer pongo2.SetAutoescape(true)
+	const mark = `<img src=x onerror="a('1')">&`
+	files := map[string]string{"/lib.tpl": `{% macro hi(who) export %}Hello {{ who }}!{% endmacro %}`, "/show.tpl": `[{{ name }}{{ other }}]`}
+	bodies := []string{
+		`{% macro hello(who) %}Hello {{ who }}!{% endmacro %}{% autoescape on %}{{ hello(name) }}{% endautoescape %}`,
+		`{% macro hello(who=name) %}Hello {{ who }}!{% endmacro %}{% autoescape on %}{{ hello() }}{% endautoescape %}`,
+		`{% macro hello() %}Hello {{ name }}!{% endmacro %}{% autoescape on %}{{ hello() }}{% endautoescape %}`,
+		`{% macro hello(who) %}Hello {{ who }}!{% endmacro %}{% autoescape on %}{% set g = hello(name) %}{{ g }}{% endautoescape %}`,
+		`{% autoescape on %}{% macro hello(who) %}Hello {{ who }}!{% endmacro %}{{ hello(name) }}{% for q in l %}{{ hello(name) }}{% endfor %}{% endautoescape %}`,
+		`{% import "/lib.tpl" hi %}{% autoescape on %}{{ hi(name) }}{% endautoescape %}`,
+		`{% autoescape on %}{% import "/lib.tpl" hi %}{{ hi(name) }}{% with z=hi(name) %}{{ z }}{% endwith %}{% endautoescape %}`,
+		`{% autoescape on %}{{ name }}{% for q in l %}{{ name }}{% endfor %}{% with o=name %}{{ o }}{% endwith %}{% firstof name %}{% cycle name name %}{% endautoescape %}`,
+		`{% autoescape on %}{% filter upper %}{{ name }}{% endfilter %}{{ name|upper }}{{ [name]|first }}{{ name|default:"x" }}{{ nothing|default:name }}{% endautoescape %}`,
+	}
+	for _, sw := range []bool{false, true} {
+		pongo2.SetAutoescape(sw)
+		for _, src := range bodies {
+			res.Cases++
+			r := implRenderFiles(src, files, pongo2.Context{"name": mark, "l": []int{1}})
+			if r.Err != "" || r.Panicked {
+				oracleFail(res, "taint", "c02-region-under-switch", fmt.Sprintf("%s after SetAutoescape(%v)", src, sw), r.String(), "renders")
+				continue
+			}
+			if strings.Contains(r.Out, "<img") || strings.Contains(strings.ToLower(r.Out), `onerror="`) || !strings.Contains(strings.ToLower(r.Out), "&lt;img") {
+				oracleFail(res, "taint", "c02-region-under-switch", fmt.Sprintf("%s with name=%q after SetAutoescape(%v)", src, mark, sw), r.String(), "the context text only in escaped form inside the region")
+			}
+		}
+	}
+	pongo2.SetAutoescape(true)
+}
